@@ -155,6 +155,9 @@ fn do_validate<'a>(
     env: &'a RefCell<Environment<StdoutWrapper, StderrWrapper>>,
 ) -> bool {
     println!("Validating {}", file);
+    // Every file gets its own verdict and its own log: start from an empty collector
+    // so that assertions recorded for files validated earlier do not leak into this one.
+    env.borrow_mut().assert_results = build::AssertCollector::new();
     match build_file(file, true, strict, import_paths, env) {
         Ok(b) => {
             if b.assert_results() {
